@@ -125,6 +125,14 @@ func NewDB(script []Result) *DB {
 	return &DB{script: script, Fired: map[string]int{}, Tables: []string{"time_series", "samples_v3", "metrics_15s", "tempo_traces"}, Versions: map[string]string{}}
 }
 
+type scriptKey struct{}
+
+// WithScript attaches the result set to serve to the statements issued under ctx
+// (request-scoped, so that concurrent clients do not see each other's scripts).
+func WithScript(ctx context.Context, r *Result) context.Context {
+	return context.WithValue(ctx, scriptKey{}, r)
+}
+
 // SetScript installs the result set served to the data statements that follow.
 func (db *DB) SetScript(r Result) {
 	db.mu.Lock()
@@ -336,7 +344,9 @@ func (c *conn) QueryContext(ctx context.Context, q string, args []driver.NamedVa
 	st.Cols = Projection(q)
 	db.mu.Lock()
 	var res Result
-	if len(db.script) > 0 {
+	if r, ok := ctx.Value(scriptKey{}).(*Result); ok && r != nil {
+		res = *r
+	} else if len(db.script) > 0 {
 		i := db.next
 		if i >= len(db.script) {
 			i = len(db.script) - 1
